@@ -252,11 +252,17 @@ func runC04(c *Ctx) {
 			ref := a
 			ref.Ops = append(append(append([]AuthOp{}, typed...), cfg...), AuthOp{K: "authorize"})
 			a.Ops = append(append([]AuthOp{}, typed...), AuthOp{K: "load", Sub: cfg}, AuthOp{K: "authorize"})
+			if len(cfg) >= 2 && r.Chance(1, 3) {
+				// the configuration comes in two snapshots, loaded one after the other
+				h := 1 + r.Intn(len(cfg)-1)
+				a.Ops = append(append([]AuthOp{}, typed...), AuthOp{K: "load", Sub: cfg[:h]}, AuthOp{K: "load", Sub: cfg[h:]}, AuthOp{K: "authorize"})
+				c.Count("shape:typed-then-loaded-twice")
+			}
 			c.Count("shape:typed-then-loaded")
 			if len(typed) > 0 {
 				resRef, _ := emitAuth(c, "auth-ref", ref)
 				resL, sxL := emitAuth(c, "auth-loaded", a)
-				if strings.HasPrefix(resL, "saved ") && resRef != "environment-timeout" && strings.TrimPrefix(resL, "saved ") != resRef {
+				if strings.HasPrefix(resL, "saved ") && resRef != "environment-timeout" && strings.TrimPrefix(strings.TrimPrefix(resL, "saved "), "saved ") != resRef {
 					c.Violate("C04/content-path-dependent", "the same facts, rules, checks and ordered policies give different verdicts depending on whether the configuration is typed in or loaded after the request's facts: typed -> "+trunc(resRef, 60)+", loaded -> "+trunc(resL, 60),
 						map[string]interface{}{"verb": "AUTHSEQ", "case": sxL, "go": resL, "reference_go": resRef})
 				}
